@@ -480,6 +480,73 @@ def region_end_failures(ctx):
         ctx.nontrivial("region-end", label, tuple(bchain or pchain))
 
 
+def explicit_parse_failures(ctx):
+    """failures that are no truncation of a valid encoding: a length prefix that decodes to a negative payload size, an end-relative
+    region on a stream that cannot seek to its end, and named field objects that were used on their own before they were embedded
+    under another name - the path still starts with the operation and names the members down to the failing one"""
+    import construct as C, io
+
+    class ForwardOnly(object):
+        """a reader that can tell where it is but cannot seek (a pipe, a decompressor)"""
+        def __init__(self, data):
+            self.b = io.BytesIO(data)
+
+        def read(self, n=-1):
+            return self.b.read(n)
+
+        def tell(self):
+            return self.b.tell()
+
+        def seekable(self):
+            return False
+
+        def seek(self, *a):
+            raise io.UnsupportedOperation("seek")
+    cases = []
+    # negative payload sizes
+    for lf, data in ((C.Int8sb, b"\xff"), (C.Int8sb, b"\x80abc"), (C.Int16sb, b"\xff\xfe")):
+        cases.append(("negative-length:signed-prefix", C.Struct("records" / C.Array(1, "record" / C.Struct("name" / C.Prefixed(lf, C.GreedyBytes)))), data, ["records", "record", "name"], "parse"))
+    for lf, data in ((C.Int16ub, b"\x00\x01"), (C.Int32ul, b"\x02\x00\x00\x00zz"), (C.Int16ub, b"\x00\x00")):
+        cases.append(("negative-length:includelength", C.Struct("h" / C.Pass, "blk" / C.Struct("body" / C.Prefixed(lf, C.GreedyBytes, includelength=True))), data, ["blk", "body"], "parse"))
+    cases.append(("negative-length:fixedsized", C.Struct("n" / C.Int8sb, "f" / C.Struct("d" / C.FixedSized(C.this._.n, C.GreedyBytes))), b"\xfe\x00", ["f", "d"], "parse"))
+    cases.append(("negative-length:bytes", C.Struct("n" / C.Int8sb, "f" / C.Struct("d" / C.Bytes(C.this._.n))), b"\xfe\x00", ["f", "d"], "parse"))
+    cases.append(("negative-length:padding", C.Struct("n" / C.Int8sb, "f" / C.Struct("d" / C.Padding(C.this._.n))), b"\xfe\x00", ["f", "d"], "parse"))
+    # a region delimited from the end of a stream that cannot seek there
+    oe = C.Struct("hdr" / C.Byte, "body" / C.Struct("data" / C.OffsettedEnd(-2, C.GreedyBytes), "crc" / C.Bytes(2)))
+    cases.append(("end-relative-region:forward-only-stream", oe, ForwardOnly(b"\x01abcdXY"), ["body", "data"], "parse_stream"))
+    cases.append(("end-relative-region:translating-stream", C.Struct("w" / C.BitsSwapped(C.Struct("n" / C.VarInt, "body" / C.Struct("data" / C.OffsettedEnd(-1, C.GreedyBytes), "t" / C.Byte)))), b"\x01abcd", ["w", "body", "data"], "parse"))
+    cases.append(("pointer:forward-only-stream", C.Struct("a" / C.Byte, "far" / C.Struct("p" / C.Pointer(3, C.Byte))), ForwardOnly(b"\x01\x02\x03\x04"), ["far", "p"], "parse_stream"))
+    # field objects used on their own first, then embedded under another name / given a docstring
+    coord = "coord" / C.Struct("x" / C.Byte, "y" / C.Int16ub)
+    for use in (lambda: coord.parse(b"\x01\x02\x03"), lambda: coord.build(dict(x=1, y=2)), lambda: coord.sizeof()):
+        use()
+    outer = C.Struct("origin" / coord, "pts" / C.Array(2, "p" / coord), "doc" / (coord * "documented"))
+    cases.append(("reused-named-object:renamed-again", outer, b"\x01\x02", ["origin", "coord", "y"], "parse"))
+    cases.append(("reused-named-object:in-array", outer, b"\x01\x02\x03\x04\x05\x06\x07", ["pts", "p", "coord", "y"], "parse"))
+    cases.append(("reused-named-object:documented", outer, b"\x01\x02\x03" * 3 + b"\x09", ["doc", "coord", "y"], "parse"))
+    cases.append(("reused-named-object:build", outer, dict(origin=dict(x=1, y=2), pts=[dict(x=1, y=2), dict(x=1, y=70000)], doc=dict(x=1, y=2)), ["pts", "p", "coord", "y"], "build"))
+    leaf = "n" / C.Int16ub
+    leaf.parse(b"\x00\x01")
+    cases.append(("reused-named-object:leaf", C.Struct("a" / C.Struct("b" / leaf)), b"\x00", ["a", "b", "n"], "parse"))
+    for label, d, arg, chain, how in cases:
+        ctx.ev()
+        case = {"op": "explicit-parse-failure", "label": label}
+        try:
+            if how == "parse":
+                d.parse(arg)
+            elif how == "parse_stream":
+                d.parse_stream(arg)
+            else:
+                d.build(arg)
+            ctx.count("explicit_failure_accepted:" + label)
+        except C.ConstructError as e:
+            check_path(ctx, e, "(building)" if how == "build" else "(parsing)", chain, "build" if how == "build" else "parse", case, label)
+            ctx.count("explicit_failures")
+        except Exception as e:
+            ctx.violation("%s-error-not-a-ConstructError:%s" % ("build" if how == "build" else "parse", type(e).__name__), "%s: raised %s: %s" % (label, type(e).__name__, str(e)[:120]), case)
+        ctx.nontrivial("explicit-failure", label)
+
+
 def dedupe_members(active):
     """names of the active named members, each member once: a member wrapped twice (name wrapper + docstring wrapper, i.e.
     a Renamed whose subcon is the next Renamed) is one member"""
@@ -608,6 +675,8 @@ def run(ctx):
         lazy_truncations(ctx)
     if ctx.index == 1 % ctx.nworkers:
         region_end_failures(ctx)
+    if ctx.index == 2 % ctx.nworkers:
+        explicit_parse_failures(ctx)
     n = ctx.pick(4000, 60000) // ctx.nworkers
     for i in range(n):
         g = ShapeGen(rng, rng.choice([2, 3, 3, 4]))
@@ -623,6 +692,8 @@ def replay(ctx, case):
         return lazy_truncations(ctx)
     if case.get("op") == "region-end":
         return region_end_failures(ctx)
+    if case.get("op") == "explicit-parse-failure":
+        return explicit_parse_failures(ctx)
     import random
     monitors.MEMBERS.install()
     run_shape(ctx, random.Random(0), case["recipe"])
